@@ -3,9 +3,14 @@
 //! sequence of length 0..=4 over {&, &mut}, 1..=4 arguments, return type present/absent, recursive calls
 //! with/without trailing comma, body templates A-D: plain recursion, early returns, calls in loops and match
 //! arms, and argument expressions with effects - a recursive call nested in an argument of a recursive call,
-//! arguments that mutate / pop from the mutable captures), compiles the batch against the REAL macro with cargo,
-//! runs the produced binary and compares, per shape and per argument tuple, the return values and the
-//! final state of every capture of the macro version with the hand-written recursive `fn` that takes the
+//! arguments that mutate / pop from the mutable captures; body template T: arguments of every TYPE class -
+//! by-value integer, bool, shared slice, `&mut Vec` passed as an argument and re-borrowed in the recursive
+//! calls, owned Vec / String moved in - driven by four calls between which the referenced data is mutated,
+//! replaced by short-lived temporaries and recreated), compiles them against the REAL macro with cargo -
+//! once with the flags of a release build and once with debug assertions and overflow checks on, because
+//! `cfg(debug_assertions)` inside a macro is decided in the invoking crate -, runs the produced binaries and
+//! compares, per shape and per argument tuple, the return values and the final state of every capture (and
+//! of every `&mut` argument) of the macro version with the hand-written recursive `fn` that takes the
 //! captures explicitly and has the same body text.
 //!
 //! A shape that does not expand/compile is a violation (family `compile`), a shape whose results differ
@@ -42,27 +47,85 @@ fn gen_root() -> PathBuf {
     vcore::run::verif_root().join("harness/target/lambda_gen")
 }
 
+/// Compiler flags of the generated package (see `gen::root_cargo_toml`): `release` = no debug assertions, no
+/// overflow checks; `dbg` = both on.  Optimisation level 0 in both.
+#[derive(Clone, Copy, Debug, PartialEq, Eq, PartialOrd, Ord)]
+enum Profile {
+    Release,
+    Dbg,
+}
+const PROFILES: [Profile; 2] = [Profile::Release, Profile::Dbg];
+
+impl Profile {
+    fn name(self) -> &'static str {
+        match self {
+            Profile::Release => "release",
+            Profile::Dbg => "dbg",
+        }
+    }
+    fn from_json(v: &Value) -> Profile {
+        if v == "dbg" {
+            Profile::Dbg
+        } else {
+            Profile::Release
+        }
+    }
+    fn cargo_args(self) -> &'static [&'static str] {
+        match self {
+            Profile::Release => &["--release"],
+            Profile::Dbg => &["--profile", "dbg"],
+        }
+    }
+    /// the same flags for a direct rustc call (rustc without -O defaults to debug assertions ON)
+    fn rustc_args(self) -> &'static [&'static str] {
+        match self {
+            Profile::Release => &["-C", "debug-assertions=off", "-C", "overflow-checks=off"],
+            Profile::Dbg => &["-C", "debug-assertions=on", "-C", "overflow-checks=on"],
+        }
+    }
+    /// suffix of signatures, empty for the plain profile so that signatures of earlier versions stay valid
+    fn sig_suffix(self) -> &'static str {
+        match self {
+            Profile::Release => "",
+            Profile::Dbg => "@debug_assertions",
+        }
+    }
+    fn describe(self) -> &'static str {
+        match self {
+            Profile::Release => "built without debug assertions",
+            Profile::Dbg => "built with debug assertions and overflow checks",
+        }
+    }
+}
+
+/// A generated package with its own target directory: `nlibs` library crates holding the shape modules (shape
+/// id modulo nlibs; the compiler works on them at the same time) and one binary that links and runs them all.
 struct Pkg {
     dir: PathBuf,
     name: String,
+    profile: Profile,
+    nlibs: usize,
 }
 
+/// Per library: (shape id, first line, last line) of every shape module in its src/lib.rs.
+type Lines = Vec<Vec<(usize, usize, usize)>>;
+
 struct BuildErr {
-    /// the rustc `message` objects of level error
-    errors: Vec<Value>,
+    /// (index of the library the diagnostic belongs to, the rustc `message` object) of level error
+    errors: Vec<(Option<usize>, Value)>,
     /// their human-readable renderings, concatenated
     rendered: String,
     /// some error belongs to another crate than the generated one (i.e. to rlib_lambda itself)
     foreign: bool,
 }
 
-/// Line of src/main.rs that a diagnostic span leads to, following the macro-expansion chain outwards to
-/// the invocation site.
+/// Line of the library's src/lib.rs that a diagnostic span leads to, following the macro-expansion chain
+/// outwards to the invocation site.
 fn span_line(span: &Value) -> Option<usize> {
     let mut cur = span;
     let mut found = None;
     for _ in 0..64 {
-        if cur["file_name"] == "src/main.rs" {
+        if cur["file_name"].as_str().map_or(false, |f| f.ends_with("src/lib.rs") && !f.starts_with('/')) {
             found = cur["line_start"].as_u64().map(|l| l as usize);
         }
         let next = &cur["expansion"]["span"];
@@ -77,14 +140,15 @@ fn span_line(span: &Value) -> Option<usize> {
 
 /// Attribute every error diagnostic to the shape whose module contains its (outermost) source line.
 /// None if some error cannot be attributed — the caller then falls back to compiling shape by shape.
-fn attribute(err: &BuildErr, lines: &[(usize, usize, usize)]) -> Option<BTreeMap<usize, String>> {
+fn attribute(err: &BuildErr, lines: &Lines) -> Option<BTreeMap<usize, String>> {
     let mut out: BTreeMap<usize, String> = BTreeMap::new();
-    for m in &err.errors {
+    for (lib, m) in &err.errors {
         let text = m["message"].as_str().unwrap_or("");
         let spans = m["spans"].as_array().cloned().unwrap_or_default();
         if spans.is_empty() && text.starts_with("aborting due to") {
             continue;
         }
+        let lines = lines.get((*lib)?)?;
         let line = spans.iter().filter(|s| s["is_primary"] == true).find_map(span_line).or_else(|| spans.iter().find_map(span_line))?;
         let k = lines.partition_point(|&(_, _, last)| last < line);
         let (id, first, _) = *lines.get(k)?;
@@ -102,11 +166,14 @@ fn attribute(err: &BuildErr, lines: &[(usize, usize, usize)]) -> Option<BTreeMap
 }
 
 impl Pkg {
-    fn new(sub: &str) -> Pkg {
-        Pkg { dir: gen_root().join(sub), name: format!("lambda_gen_{sub}") }
+    fn new(sub: &str, profile: Profile, nlibs: usize) -> Pkg {
+        Pkg { dir: gen_root().join(sub), name: format!("lambda_gen_{sub}"), profile, nlibs }
+    }
+    fn lib_names(&self) -> Vec<String> {
+        (0..self.nlibs).map(|k| format!("{}_p{k}", self.name)).collect()
     }
     fn target(&self) -> PathBuf {
-        gen_root().join("target")
+        self.dir.join("target")
     }
     fn cargo(&self) -> Command {
         let mut c = Command::new(std::env::var("CARGO_BIN").unwrap_or_else(|_| "cargo".into()));
@@ -130,32 +197,43 @@ impl Pkg {
             machinery(&format!("cannot write {}: {e}", path.display()));
         }
     }
-    /// Write the package (Cargo.toml, .cargo/config.toml with the harness's offline setting, src/main.rs).
-    /// Returns the line range of every shape's module in src/main.rs.
-    fn write(&self, shapes: &[(usize, Shape)], thorough: bool, with_macro: bool) -> Vec<(usize, usize, usize)> {
-        Self::write_if_changed(&self.dir.join("Cargo.toml"), &gen::cargo_toml(&self.name, CRATE_PATH));
+    /// Write the package: the workspace root with the binary (Cargo.toml, .cargo/config.toml with the harness's
+    /// offline setting, src/main.rs) and the libraries (<lib>/Cargo.toml, <lib>/src/lib.rs).
+    fn write(&self, shapes: &[(usize, Shape)], thorough: bool, with_macro: bool) -> Lines {
+        let libs = self.lib_names();
+        Self::write_if_changed(&self.dir.join("Cargo.toml"), &gen::root_cargo_toml(&self.name, &libs));
         Self::write_if_changed(&self.dir.join(".cargo/config.toml"), "[net]\noffline = true\n");
-        let (src, lines) = gen::program_lines(shapes, thorough, with_macro);
-        Self::write_if_changed(&self.dir.join("src/main.rs"), &src);
+        Self::write_if_changed(&self.dir.join("src/main.rs"), &gen::main_file(&libs, thorough));
+        let mut lines = vec![];
+        for (k, lib) in libs.iter().enumerate() {
+            let mine: Vec<(usize, Shape)> = shapes.iter().filter(|(id, _)| id % self.nlibs == k).cloned().collect();
+            let (src, l) = gen::lib_file(&mine, with_macro);
+            Self::write_if_changed(&self.dir.join(lib).join("Cargo.toml"), &gen::lib_cargo_toml(lib, CRATE_PATH));
+            Self::write_if_changed(&self.dir.join(lib).join("src/lib.rs"), &src);
+            lines.push(l);
+        }
         lines
     }
-    /// `cargo build --offline --release` (or `cargo check`, which stops before code generation);
+    /// `cargo build --offline` with the package's profile (or `cargo check`, which stops before code generation);
     /// Ok(binary path) or Err(the compiler's diagnostics).
     fn build(&self, verb: &str) -> Result<PathBuf, BuildErr> {
         let t = std::time::Instant::now();
-        let out = self.cargo().args([verb, "--offline", "--release", "--quiet", "--message-format=json"]).output();
+        // --keep-going: a library that fails does not keep the others from being compiled, so that one round
+        // sees the diagnostics of all of them
+        let out = self.cargo().arg(verb).args(self.profile.cargo_args()).args(["--offline", "--quiet", "--keep-going", "--message-format=json"]).output();
         phase(&format!("cargo {verb} {}", self.name), t);
         let out = match out {
             Ok(o) => o,
             Err(e) => machinery(&format!("cannot run cargo: {e}")),
         };
         if out.status.success() {
-            let bin = self.target().join("release").join(&self.name);
+            let bin = self.target().join(self.profile.name()).join(&self.name);
             if verb == "build" && !bin.exists() {
                 machinery(&format!("cargo succeeded but {} does not exist", bin.display()));
             }
             return Ok(bin);
         }
+        let libs = self.lib_names();
         let mut errors = vec![];
         let mut rendered = String::new();
         let mut foreign = false;
@@ -167,11 +245,13 @@ impl Pkg {
             if v["reason"] != "compiler-message" || v["message"]["level"] != "error" {
                 continue;
             }
-            if v["target"]["name"] != self.name.as_str() {
+            let target = v["target"]["name"].as_str().unwrap_or("");
+            let lib = libs.iter().position(|l| l == target);
+            if lib.is_none() && target != self.name.as_str() {
                 foreign = true;
             }
             rendered += v["message"]["rendered"].as_str().unwrap_or("");
-            errors.push(v["message"].clone());
+            errors.push((lib, v["message"].clone()));
         }
         if errors.is_empty() {
             // cargo itself failed (manifest, lock file, …): nothing to do with the macro
@@ -184,7 +264,9 @@ impl Pkg {
     fn build_library(&self) -> PathBuf {
         let out = self
             .cargo()
-            .args(["build", "--offline", "--release", "-p", "rlib_lambda", "--message-format=json"])
+            .arg("build")
+            .args(self.profile.cargo_args())
+            .args(["--offline", "-p", "rlib_lambda", "--message-format=json"])
             .output()
             .unwrap_or_else(|e| machinery(&format!("cannot run cargo: {e}")));
         if !out.status.success() {
@@ -232,6 +314,9 @@ struct ShapeOut {
     hand: Vec<String>,
     calls_macro: u64,
     calls_hand: u64,
+    /// activations that left the body through an explicit `return`
+    early_macro: u64,
+    early_hand: u64,
 }
 
 struct RunOut {
@@ -279,6 +364,8 @@ fn run_binary(bin: &Path, ids: &[usize]) -> RunOut {
                         hand: strs("hand"),
                         calls_macro: v["calls_macro"].as_u64().unwrap_or(0),
                         calls_hand: v["calls_hand"].as_u64().unwrap_or(0),
+                        early_macro: v["early_macro"].as_u64().unwrap_or(0),
+                        early_hand: v["early_hand"].as_u64().unwrap_or(0),
                     },
                 );
                 begun = None;
@@ -315,7 +402,9 @@ fn check_each(pkg: &Pkg, shapes: &[(usize, Shape)], thorough: bool) -> BTreeMap<
     let compile = |file: &Path| -> Result<(), String> {
         let out = Command::new(&rustc)
             .current_dir(&dir)
-            .args(["--edition", "2021", "--crate-type", "bin", "--emit=metadata", "--extern"])
+            .args(["--edition", "2021", "--crate-type", "bin", "--emit=metadata"])
+            .args(pkg.profile.rustc_args())
+            .arg("--extern")
             .arg(format!("rlib_lambda={}", rlib.display()))
             .arg("--out-dir")
             .arg(&dir)
@@ -350,6 +439,17 @@ fn check_each(pkg: &Pkg, shapes: &[(usize, Shape)], thorough: bool) -> BTreeMap<
     failures.into_iter().collect()
 }
 
+/// A result string shortened for a message (the logs of the larger tuples have hundreds of entries).
+fn shorten(s: &str) -> String {
+    const KEEP: usize = 400;
+    if s.len() <= KEEP {
+        s.to_string()
+    } else {
+        let cut = (0..=KEEP).rev().find(|&i| s.is_char_boundary(i)).unwrap_or(0);
+        format!("{}… ({} characters in all)", &s[..cut], s.len())
+    }
+}
+
 /// First argument tuple on which the two versions differ.
 fn first_difference(sh: &Shape, out: &ShapeOut, grid: &[Tuple]) -> Option<(usize, String)> {
     if out.mac.len() != grid.len() || out.hand.len() != grid.len() {
@@ -363,11 +463,17 @@ fn first_difference(sh: &Shape, out: &ShapeOut, grid: &[Tuple]) -> Option<(usize
             return Some((
                 i,
                 format!(
-                    "shape {} on arguments {} (called twice: with these, then with the first argument decreased by 1): rec_lambda version gave (r1, r2, captures…) = {} but the hand-written recursive fn gave {}",
+                    "shape {} on {} {}: rec_lambda version gave {} = {} but the hand-written recursive fn gave {}",
                     sh.descriptor(),
-                    gen::tuple_text(&grid[i], sh.nargs),
-                    out.mac[i],
-                    out.hand[i]
+                    if sh.body == 'T' { "driver tuple" } else { "arguments" },
+                    if sh.body == 'T' {
+                        format!("{:?} (the closure is created once and called four times; the data behind the arguments is built from the tuple, mutated after call 1, replaced by short-lived temporaries for call 3 and recreated before call 4)", grid[i])
+                    } else {
+                        format!("{} (called twice: with these, then with the first argument decreased by 1)", gen::tuple_text(&grid[i], sh.nargs))
+                    },
+                    if sh.body == 'T' { "((r1, r2, `&mut` argument data after call 2, r3, `&mut` temporaries after call 3, r4), (captures…), (`&mut` argument data at the end…))" } else { "(r1, r2, captures…)" },
+                    shorten(&out.mac[i]),
+                    shorten(&out.hand[i])
                 ),
             ));
         }
@@ -375,37 +481,169 @@ fn first_difference(sh: &Shape, out: &ShapeOut, grid: &[Tuple]) -> Option<(usize
     None
 }
 
-/// Plain re-execution of ONE shape: generate a package with just that shape, compile, run, compare.
+/// Every shape of a tier, in enumeration order (the position is the shape's id): the templates A-D with the
+/// fixed argument types, then the typed-argument family T.
+fn tier_plan(thorough: bool) -> Vec<(char, Vec<usize>)> {
+    // (body template, argument counts).  Quick: template A with every argument count, and template D
+    // (argument expressions with effects) with the two extreme argument counts - 1: the only argument carries
+    // the nested call and the mutation, 4: they sit in the first and in the last argument.
+    let all = vec![1usize, 2, 3, 4];
+    if thorough {
+        vec![('A', all.clone()), ('B', all.clone()), ('C', all.clone()), ('D', all)]
+    } else {
+        vec![('A', all), ('D', vec![1, 4])]
+    }
+}
+fn tier_shapes(thorough: bool) -> Vec<(usize, Shape)> {
+    let mut v = gen::enumerate(&tier_plan(thorough));
+    v.extend(gen::enumerate_typed(thorough));
+    v.into_iter().enumerate().collect()
+}
+/// Number of library crates the shapes of a build are spread over (shape id modulo this number): with the two
+/// builds, as many compiler front-ends as the machine has cores.
+const LIBS_PER_BUILD: usize = 8;
+
+/// Build the package (already written) and run it; the result of the shape with id `id`.
+fn run_one(pkg: &Pkg, sh: &Shape, id: usize, ids: &[usize]) -> Result<Result<ShapeOut, String>, BuildErr> {
+    let bin = pkg.build("build")?;
+    let out = run_binary(&bin, ids);
+    if let Some((_, status)) = out.crashed.iter().find(|(c, _)| *c == id) {
+        return Ok(Err(format!("shape {}: the process running the rec_lambda version died ({status}) — unbounded recursion or abort", sh.descriptor())));
+    }
+    Ok(Ok(out.results.get(&id).cloned().unwrap_or_else(|| machinery("replay binary printed no result"))))
+}
+
+/// Plain re-execution of ONE shape: generate a package with just that shape, compile, run, compare.  If the
+/// shape behaves on its own and the replay carries a history (the shapes that ran before it in the same
+/// process), the shapes of the history are generated, compiled and run before it again: what a macro keeps
+/// per thread between invocations belongs to the case.  On a correct macro the history changes nothing.
 fn confirm(v: &Value) -> Result<(), String> {
     let sh: Shape = serde_json::from_value(v["shape"].clone()).map_err(|e| format!("bad replay: {e}")).unwrap_or_else(|e| machinery(&e));
     let thorough = v["grid"] == "thorough";
-    let pkg = Pkg::new("replay");
+    let profile = Profile::from_json(&v["profile"]);
+    let grid = gen::grid(thorough, sh.nargs);
+    let pkg = Pkg::new(&format!("replay_{}", profile.name()), profile, 1);
     pkg.write(&[(0, sh.clone())], thorough, true);
-    let bin = match pkg.build("build") {
-        Ok(b) => b,
+    let o = match run_one(&pkg, &sh, 0, &[0]) {
+        Ok(r) => r?,
         Err(err) => {
             if err.foreign {
                 pkg.build_library(); // exits 2: the library itself is what does not build
             }
             // the same program without the macro invocation must build, else the generator is at fault
-            let ctl = Pkg::new("replay_control");
+            let ctl = Pkg::new(&format!("replay_control_{}", profile.name()), profile, 1);
             ctl.write(&[(0, sh.clone())], thorough, false);
             if let Err(e) = ctl.build("check") {
                 machinery(&format!("generator defect: the hand-written version of {} does not compile: {}", sh.descriptor(), first_errors(&e.rendered, 2)));
             }
-            return Err(format!("shape {} does not compile against the macro: {}", sh.descriptor(), first_errors(&err.rendered, 2)));
+            return Err(format!("shape {} ({}) does not compile against the macro: {}", sh.descriptor(), profile.describe(), first_errors(&err.rendered, 2)));
         }
     };
-    let out = run_binary(&bin, &[0]);
-    if let Some((_, status)) = out.crashed.first() {
-        return Err(format!("shape {}: the process running the rec_lambda version died ({status}) — unbounded recursion or abort", sh.descriptor()));
+    if let Some((_, msg)) = first_difference(&sh, &o, &grid) {
+        return Err(msg);
     }
-    let grid = gen::grid(thorough, sh.nargs);
-    let o = out.results.get(&0).unwrap_or_else(|| machinery("replay binary printed no result"));
-    match first_difference(&sh, o, &grid) {
-        Some((_, msg)) => Err(msg),
+    let h = &v["history"];
+    if !h.is_object() {
+        return Ok(());
+    }
+    let upto = h["upto"].as_u64().unwrap_or(0) as usize;
+    let excluded: BTreeSet<usize> = h["excluded"].as_array().map(|a| a.iter().filter_map(|x| x.as_u64().map(|x| x as usize)).collect()).unwrap_or_default();
+    let shapes: Vec<(usize, Shape)> = tier_shapes(thorough).into_iter().filter(|(id, _)| *id <= upto && !excluded.contains(id)).collect();
+    if shapes.last().map(|(id, s)| (*id, s)) != Some((upto, &sh)) {
+        machinery("replay: the recorded history does not end with the recorded shape (written by another version of the engine?)");
+    }
+    let pkg = Pkg::new(&format!("replay_history_{}", profile.name()), profile, LIBS_PER_BUILD);
+    pkg.write(&shapes, thorough, true);
+    let ids: Vec<usize> = shapes.iter().map(|(id, _)| *id).collect();
+    let note = format!(" [only after the {} shapes before it in enumeration order had run in the same process, on the same thread: the macro keeps state between invocations]", shapes.len() - 1);
+    let o = match run_one(&pkg, &sh, upto, &ids) {
+        Ok(r) => r.map_err(|e| e + &note)?,
+        Err(err) => machinery(&format!("replay: the recorded history does not compile: {}", first_errors(&err.rendered, 2))),
+    };
+    match first_difference(&sh, &o, &grid) {
+        Some((_, msg)) => Err(msg + &note),
         None => Ok(()),
     }
+}
+
+/// What one build (= one profile) of all shapes of a tier gave.
+struct BuildOut {
+    profile: Profile,
+    /// shape id -> the compiler's first error
+    compile_failures: BTreeMap<usize, String>,
+    rounds: u64,
+    attribution: &'static str,
+    build_wall_s: f64,
+    run: RunOut,
+}
+
+/// Compile the batch with one profile; on failure name the offending shapes.  The compiler's diagnostics (followed
+/// through the macro-expansion chain to the invocation site) name the failing shapes; those are removed and
+/// the rest is compiled again, until the batch builds (later compiler phases only run once the earlier ones
+/// are clean, so this can take a few rounds).  If some diagnostic cannot be attributed, every remaining shape
+/// is compiled on its own with rustc --extern.  Then run what compiled.
+fn process_build(profile: Profile, shapes: &[(usize, Shape)], tier: &str, thorough: bool) -> BuildOut {
+    let sub = format!("{tier}_{}", profile.name());
+    let pkg = Pkg::new(&sub, profile, LIBS_PER_BUILD);
+    let t0 = std::time::Instant::now();
+    let mut compile_failures: BTreeMap<usize, String> = BTreeMap::new();
+    let mut remaining: Vec<(usize, Shape)> = shapes.to_vec();
+    let mut rounds = 0u64;
+    let mut attribution = "none needed (the batch compiled)";
+    let bin = loop {
+        let lines = pkg.write(&remaining, thorough, true);
+        rounds += 1;
+        let err = match pkg.build("build") {
+            Ok(b) => break b,
+            Err(e) => e,
+        };
+        if err.foreign {
+            pkg.build_library(); // exits 2: the library itself does not build
+        }
+        // VERIF_LAMBDA_PER_SHAPE forces the fallback (used to test it); both routes name the same shapes
+        let force = std::env::var_os("VERIF_LAMBDA_PER_SHAPE").is_some();
+        let found = if rounds <= 8 && !force { attribute(&err, &lines) } else { None };
+        let found = match found {
+            Some(f) => {
+                attribution = "compiler diagnostics of the batch, traced to the invocation site";
+                f
+            }
+            None => {
+                attribution = "every shape compiled on its own with rustc --extern";
+                let f = check_each(&pkg, &remaining, thorough);
+                if f.is_empty() {
+                    machinery(&format!(
+                        "the batch of {} shapes does not compile but every shape compiles on its own: {}",
+                        remaining.len(),
+                        first_errors(&err.rendered, 3)
+                    ));
+                }
+                f
+            }
+        };
+        remaining.retain(|(id, _)| !found.contains_key(id));
+        compile_failures.extend(found);
+        // when nothing compiles the (empty) driver is still built, so that the run phase is uniform
+    };
+    if !compile_failures.is_empty() {
+        // the same shapes WITHOUT the macro invocation must compile, otherwise the generator is at fault
+        // and no verdict may be given
+        let failing: Vec<(usize, Shape)> = shapes.iter().filter(|(id, _)| compile_failures.contains_key(id)).cloned().collect();
+        let ctl = Pkg::new(&format!("{sub}_control"), profile, LIBS_PER_BUILD);
+        ctl.write(&failing, thorough, false);
+        if let Err(e) = ctl.build("check") {
+            machinery(&format!(
+                "generator defect: the hand-written versions of the shapes that fail to compile do not compile either: {}",
+                first_errors(&e.rendered, 3)
+            ));
+        }
+    }
+    let build_wall_s = t0.elapsed().as_secs_f64();
+    let ids: Vec<usize> = remaining.iter().map(|(id, _)| *id).collect();
+    let t1 = std::time::Instant::now();
+    let run = run_binary(&bin, &ids);
+    phase(&format!("run {sub}"), t1);
+    BuildOut { profile, compile_failures, rounds, attribution, build_wall_s, run }
 }
 
 fn main() {
@@ -416,19 +654,17 @@ fn main() {
     }
     let mut run = Run::new(&args, "lambda", "exploration");
     let thorough = args.tier == Tier::Thorough;
-    // (body template, argument counts).  Quick: template A with every argument count, and template D
-    // (argument expressions with effects) with the two extreme argument counts - 1: the only argument carries
-    // the nested call and the mutation, 4: they sit in the first and in the last argument.
-    let all = vec![1usize, 2, 3, 4];
-    let plan: Vec<(char, Vec<usize>)> = args.tier.pick(
-        vec![('A', all.clone()), ('D', vec![1, 4])],
-        vec![('A', all.clone()), ('B', all.clone()), ('C', all.clone()), ('D', all.clone())],
-    );
-    let bodies: Vec<char> = plan.iter().map(|(b, _)| *b).collect();
-    let shapes: Vec<(usize, Shape)> = gen::enumerate(&plan).into_iter().enumerate().collect();
-    let expected_programs: usize = plan.iter().map(|(_, a)| 31 * a.len() * 2 * 2).sum();
-    if shapes.len() != expected_programs {
-        run.machinery_failure(&format!("enumerated {} shapes, expected {expected_programs}", shapes.len()));
+    let plan = tier_plan(thorough);
+    let bodies: Vec<char> = plan.iter().map(|(b, _)| *b).chain(['T']).collect();
+    let shapes: Vec<(usize, Shape)> = tier_shapes(thorough);
+    let n_fixed: usize = plan.iter().map(|(_, a)| 31 * a.len() * 2 * 2).sum();
+    let typed: Vec<&Shape> = shapes.iter().map(|(_, s)| s).filter(|s| s.body == 'T').collect();
+    if shapes.len() - typed.len() != n_fixed {
+        run.machinery_failure(&format!("enumerated {} shapes with the fixed argument types, expected {n_fixed}", shapes.len() - typed.len()));
+    }
+    let descriptors: BTreeSet<String> = shapes.iter().map(|(_, s)| s.descriptor()).collect();
+    if descriptors.len() != shapes.len() {
+        run.machinery_failure("two enumerated shapes have the same descriptor");
     }
     let patterns: BTreeSet<Vec<bool>> = shapes.iter().map(|(_, s)| s.caps.clone()).collect();
     if patterns.len() != 31 {
@@ -462,234 +698,239 @@ fn main() {
             }
         }
     }
-
-    let pkg = Pkg::new(args.tier.name());
-    let tier_name = args.tier.name();
-    let replay_of = |sh: &Shape, family: &str| json!({"family": family, "shape": sh, "grid": tier_name, "descriptor": sh.descriptor()});
-
-    // ---- compile the whole batch; on failure name the offending shapes ----
-    // The compiler's diagnostics (followed through the macro-expansion chain to the invocation site) name
-    // the failing shapes; those are removed and the rest is compiled again, until the batch builds (later
-    // compiler phases only run once the earlier ones are clean, so this can take a few rounds).  If some
-    // diagnostic cannot be attributed, every remaining shape is compiled on its own with rustc --extern.
-    let t0 = std::time::Instant::now();
-    let mut compile_failures: BTreeMap<usize, String> = BTreeMap::new();
-    let mut remaining: Vec<(usize, Shape)> = shapes.clone();
-    let mut rounds = 0u64;
-    let mut attribution = "none needed (the batch compiled)";
-    let bin = loop {
-        let lines = pkg.write(&remaining, thorough, true);
-        rounds += 1;
-        let err = match pkg.build("build") {
-            Ok(b) => break b,
-            Err(e) => e,
-        };
-        if err.foreign {
-            pkg.build_library(); // exits 2: the library itself does not build
-        }
-        // VERIF_LAMBDA_PER_SHAPE forces the fallback (used to test it); both routes name the same shapes
-        let force = std::env::var_os("VERIF_LAMBDA_PER_SHAPE").is_some();
-        let found = if rounds <= 8 && !force { attribute(&err, &lines) } else { None };
-        let found = match found {
-            Some(f) => {
-                attribution = "compiler diagnostics of the batch, traced to the invocation site";
-                f
-            }
-            None => {
-                attribution = "every shape compiled on its own with rustc --extern";
-                let f = check_each(&pkg, &remaining, thorough);
-                if f.is_empty() {
-                    run.machinery_failure(&format!(
-                        "the batch of {} shapes does not compile but every shape compiles on its own: {}",
-                        remaining.len(),
-                        first_errors(&err.rendered, 3)
-                    ));
+    // non-vacuity of the typed-argument family: for every capture pattern, every argument count and every
+    // argument position, every type class occurs; for every capture pattern and argument count all four
+    // (return type, call syntax) combinations occur
+    let typed_cells: BTreeSet<(Vec<bool>, usize, usize, char)> =
+        typed.iter().flat_map(|s| (0..s.nargs).map(move |k| (s.caps.clone(), s.nargs, k, s.class(k)))).collect();
+    let typed_combos: BTreeSet<(Vec<bool>, usize, bool, bool)> = typed.iter().map(|s| (s.caps.clone(), s.nargs, s.ret, s.trailing)).collect();
+    for caps in &patterns {
+        for nargs in 1..=4usize {
+            for k in 0..nargs {
+                for c in gen::CLASSES {
+                    if !typed_cells.contains(&(caps.clone(), nargs, k, c)) {
+                        run.machinery_failure(&format!("typed-argument family: capture pattern {caps:?}, {nargs} argument(s): class {c} never occurs at position {}", k + 1));
+                    }
                 }
-                f
             }
-        };
-        remaining.retain(|(id, _)| !found.contains_key(id));
-        compile_failures.extend(found);
-        if remaining.is_empty() {
-            // nothing compiles: still build the (empty) driver so that the run phase is uniform
-            continue;
-        }
-    };
-    if !compile_failures.is_empty() {
-        // the same shapes WITHOUT the macro invocation must compile, otherwise the generator is at fault
-        // and no verdict may be given
-        let failing: Vec<(usize, Shape)> = shapes.iter().filter(|(id, _)| compile_failures.contains_key(id)).cloned().collect();
-        let ctl = Pkg::new(&format!("{}_control", args.tier.name()));
-        ctl.write(&failing, thorough, false);
-        if let Err(e) = ctl.build("check") {
-            run.machinery_failure(&format!(
-                "generator defect: the hand-written versions of the shapes that fail to compile do not compile either: {}",
-                first_errors(&e.rendered, 3)
-            ));
+            if (0..4).any(|i| !typed_combos.contains(&(caps.clone(), nargs, i & 2 != 0, i & 1 != 0))) {
+                run.machinery_failure(&format!("typed-argument family: capture pattern {caps:?}, {nargs} argument(s): not all (return type, call syntax) combinations occur"));
+            }
         }
     }
-    run.cov("compile_rounds", rounds);
-    run.cov("compile_failure_attribution", attribution);
-    run.cov("batch_compile_wall_s", (t0.elapsed().as_secs_f64() * 10.0).round() / 10.0);
-    if let Some((id, err)) = compile_failures.iter().next() {
-        let sh = &shapes[*id].1;
-        run.violation(Violation::new(
-            format!("compile:{}", sh.descriptor()),
-            format!(
-                "shape {} does not compile against the macro ({} of {} shapes fail to compile; this is the first in enumeration order): {}",
-                sh.descriptor(),
-                compile_failures.len(),
-                shapes.len(),
-                err
-            ),
-            replay_of(sh, "compile"),
-        ));
-    }
-    run.cov("shapes_failing_to_compile", compile_failures.len() as u64);
-    if !compile_failures.is_empty() {
-        let list: Vec<String> = compile_failures.keys().take(12).map(|id| shapes[*id].1.descriptor()).collect();
-        run.cov("first_shapes_failing_to_compile", json!(list));
-    }
+    let typed_vectors: BTreeSet<&str> = typed.iter().map(|s| s.types.as_str()).collect();
+    let typed_capture_classes: BTreeSet<(usize, usize, char)> = typed.iter().flat_map(|s| (0..s.nargs).map(move |k| (s.capture_class(), s.nargs, s.class(k)))).collect();
 
-    // ---- run, compare ----
-    let compiled: Vec<usize> = shapes.iter().map(|(id, _)| *id).filter(|id| !compile_failures.contains_key(id)).collect();
-    let out = run_binary(&bin, &compiled);
+    let tier_name = args.tier.name();
+
+    // ---- compile and run: one package per profile, both built at the same time ----
+    let t0 = std::time::Instant::now();
+    let outs: Vec<BuildOut> = PROFILES.par_iter().map(|&p| process_build(p, &shapes, tier_name, thorough)).collect();
+    phase("both builds", t0);
+    run.cov("library_crates_per_build", LIBS_PER_BUILD as u64);
+    run.cov("compile_rounds_max", outs.iter().map(|o| o.rounds).max().unwrap_or(0));
+    run.cov("compile_failure_attribution", outs.iter().map(|o| o.attribution).find(|a| !a.starts_with("none")).unwrap_or("none needed (every batch compiled)"));
+    run.cov("build_wall_s_max_over_builds", (outs.iter().map(|o| o.build_wall_s).fold(0.0, f64::max) * 10.0).round() / 10.0);
+    run.cov("build_and_run_wall_s", (t0.elapsed().as_secs_f64() * 10.0).round() / 10.0);
+
     let grids: Vec<Vec<Tuple>> = (0..=4).map(|n| if n == 0 { vec![] } else { gen::grid(thorough, n) }).collect();
     let mut evaluations = 0u64;
-    let mut nontrivial = 0u64;
-    let mut trivial_by_rule = 0u64;
     let mut distinct_outcomes: BTreeSet<u64> = BTreeSet::new();
     let mut calls_macro = 0u64;
     let mut calls_hand = 0u64;
+    let mut early_by_profile = [0u64; 2];
+    let mut early_hand = 0u64;
     let mut trivial_call_mismatch = 0u64;
-    let mut behaviour_failures = 0u64;
-    let mut first_behaviour: Option<Violation> = None;
     let mut per_ncaps = [0u64; 5];
     let mut longest_log = 0usize;
-    for &id in &compiled {
-        let sh = &shapes[id].1;
-        let grid = &grids[sh.nargs];
-        if let Some((_, status)) = out.crashed.iter().find(|(c, _)| *c == id) {
-            behaviour_failures += 1;
-            if first_behaviour.is_none() {
-                first_behaviour = Some(Violation::new(
-                    format!("behaviour:{}@crash", sh.descriptor()),
-                    format!("shape {}: the process died ({status}) while running it — unbounded recursion or abort", sh.descriptor()),
-                    replay_of(sh, "behaviour"),
-                ));
+    let mut total_compile_failures = 0u64;
+    let mut total_behaviour_failures = 0u64;
+    let mut nontrivial_by_profile = [0u64; 2];
+    let mut trivial_by_profile = [0u64; 2];
+    let mut typed_run = 0u64;
+    // the first failing case of each family: smallest (shape id, profile)
+    let mut first_compile: Option<((usize, Profile), Violation)> = None;
+    let mut first_behaviour: Option<((usize, Profile), Violation)> = None;
+    let mut failing_list: Vec<(usize, String)> = vec![];
+
+    for out in &outs {
+        let profile = out.profile;
+        let pi = PROFILES.iter().position(|&p| p == profile).unwrap();
+        let excluded: Vec<usize> = out.compile_failures.keys().copied().collect();
+        let replay_of = |sh: &Shape, family: &str, id: usize, history: bool| {
+            let mut v = json!({"family": family, "shape": sh, "grid": tier_name, "descriptor": sh.descriptor(), "profile": profile.name()});
+            if history {
+                v["history"] = json!({"upto": id, "excluded": excluded});
             }
-            continue;
-        }
-        let o = match out.results.get(&id) {
-            Some(o) => o,
-            None => run.machinery_failure(&format!("no result line for shape {id} ({})", sh.descriptor())),
+            v
         };
-        evaluations += grid.len() as u64;
-        per_ncaps[sh.caps.len()] += 1;
-        calls_macro += o.calls_macro;
-        calls_hand += o.calls_hand;
-        // recursion must really have happened in the reference: more body executions than top-level calls
-        if o.calls_hand <= 2 * grid.len() as u64 {
-            run.machinery_failure(&format!("shape {} never recursed in the hand-written version", sh.descriptor()));
-        }
-        let distinct: BTreeSet<&String> = o.hand.iter().collect();
-        for s in &o.mac {
-            distinct_outcomes.insert(fnv(s.as_bytes()));
-            longest_log = longest_log.max(s.matches(',').count());
-        }
-        let observable = distinct.len() >= 2;
-        if observable {
-            nontrivial += 1;
-        }
-        if sh.trivially_observable() {
-            trivial_by_rule += 1;
-            if o.calls_macro != o.calls_hand {
-                trivial_call_mismatch += 1;
+        total_compile_failures += out.compile_failures.len() as u64;
+        for (id, err) in &out.compile_failures {
+            let sh = &shapes[*id].1;
+            failing_list.push((*id, format!("{}{}", sh.descriptor(), profile.sig_suffix())));
+            if first_compile.as_ref().map_or(true, |(k, _)| (*id, profile) < *k) {
+                first_compile = Some((
+                    (*id, profile),
+                    Violation::new(
+                        format!("compile:{}{}", sh.descriptor(), profile.sig_suffix()),
+                        format!("shape {} ({}) does not compile against the macro: {}", sh.descriptor(), profile.describe(), err),
+                        replay_of(sh, "compile", *id, false),
+                    ),
+                ));
             }
         }
-        // the measured notion (results vary with the arguments) must coincide with the syntactic one
-        if observable == sh.trivially_observable() {
-            run.machinery_failure(&format!(
-                "shape {}: hand-written version shows {} distinct results over the grid, but the shape {} a return value or mutable capture",
-                sh.descriptor(),
-                distinct.len(),
-                if sh.trivially_observable() { "has no" } else { "has" }
-            ));
-        }
-        if let Some((i, msg)) = first_difference(sh, o, grid) {
-            behaviour_failures += 1;
-            if first_behaviour.is_none() {
-                first_behaviour = Some(Violation::new(
-                    format!("behaviour:{}@args={}", sh.descriptor(), gen::tuple_text(&grid[i], sh.nargs)),
-                    msg,
-                    replay_of(sh, "behaviour"),
+        for (id, sh) in shapes.iter().filter(|(id, _)| !out.compile_failures.contains_key(id)) {
+            let grid = &grids[sh.nargs];
+            let mut fail = |sig: String, msg: String| {
+                total_behaviour_failures += 1;
+                if first_behaviour.as_ref().map_or(true, |(k, _)| (*id, profile) < *k) {
+                    first_behaviour = Some(((*id, profile), Violation::new(sig, format!("[{}] {msg}", profile.describe()), replay_of(sh, "behaviour", *id, true))));
+                }
+            };
+            if let Some((_, status)) = out.run.crashed.iter().find(|(c, _)| c == id) {
+                fail(
+                    format!("behaviour:{}@crash{}", sh.descriptor(), profile.sig_suffix()),
+                    format!("shape {}: the process died ({status}) while running it — unbounded recursion or abort", sh.descriptor()),
+                );
+                continue;
+            }
+            let o = match out.run.results.get(id) {
+                Some(o) => o,
+                None => run.machinery_failure(&format!("no result line for shape {id} ({})", sh.descriptor())),
+            };
+            evaluations += grid.len() as u64;
+            per_ncaps[sh.caps.len()] += 1;
+            typed_run += (sh.body == 'T') as u64;
+            calls_macro += o.calls_macro;
+            calls_hand += o.calls_hand;
+            early_by_profile[pi] += o.early_macro;
+            early_hand += o.early_hand;
+            // recursion must really have happened in the reference: more body executions than top-level calls
+            if o.calls_hand <= (sh.top_level_calls() * grid.len()) as u64 {
+                run.machinery_failure(&format!("shape {} never recursed in the hand-written version", sh.descriptor()));
+            }
+            let distinct: BTreeSet<&String> = o.hand.iter().collect();
+            for s in &o.mac {
+                distinct_outcomes.insert(fnv(s.as_bytes()));
+                longest_log = longest_log.max(s.matches(',').count());
+            }
+            let observable = distinct.len() >= 2;
+            nontrivial_by_profile[pi] += observable as u64;
+            if sh.trivially_observable() {
+                trivial_by_profile[pi] += 1;
+                if o.calls_macro != o.calls_hand {
+                    trivial_call_mismatch += 1;
+                }
+            }
+            // the measured notion (results vary with the arguments) must coincide with the syntactic one
+            if observable == sh.trivially_observable() {
+                run.machinery_failure(&format!(
+                    "shape {}: hand-written version shows {} distinct results over the grid, but the shape {} a return value, mutable capture or `&mut` argument",
+                    sh.descriptor(),
+                    distinct.len(),
+                    if sh.trivially_observable() { "has no" } else { "has" }
                 ));
+            }
+            if let Some((i, msg)) = first_difference(sh, o, grid) {
+                fail(format!("behaviour:{}@args={}{}", sh.descriptor(), gen::tuple_text(&grid[i], sh.nargs), profile.sig_suffix()), msg);
             }
         }
     }
-    if let Some(v) = first_behaviour {
+    let any_failure = total_compile_failures + total_behaviour_failures > 0;
+    if let Some((_, mut v)) = first_compile {
+        v.summary = format!("{} ({} of {} (shape, build) pairs fail to compile; this is the first in enumeration order)", v.summary, total_compile_failures, shapes.len() * PROFILES.len());
         run.violation(v);
     }
+    if let Some((_, v)) = first_behaviour {
+        run.violation(v);
+    }
+    let nontrivial = nontrivial_by_profile[0];
 
     run.cov("programs", shapes.len() as u64);
-    run.cov("programs_compiled_and_run", compiled.len() as u64);
+    run.cov("programs_with_typed_arguments", typed.len() as u64);
+    run.cov("builds_per_program", json!(PROFILES.iter().map(|p| p.describe()).collect::<Vec<_>>()));
+    run.cov("program_builds_compiled_and_run", (shapes.len() * PROFILES.len()) as u64 - total_compile_failures);
+    run.cov("program_builds_failing_to_compile", total_compile_failures);
+    if !failing_list.is_empty() {
+        failing_list.sort();
+        run.cov("first_program_builds_failing_to_compile", json!(failing_list.iter().take(12).map(|(_, d)| d).collect::<Vec<_>>()));
+    }
     run.cov("evaluations", evaluations);
     run.cov("distinct_nontrivial", nontrivial);
-    run.cov("trivially_observable_shapes", trivial_by_rule);
-    run.cov("shapes_with_differing_results", behaviour_failures);
+    run.cov("trivially_observable_shapes", trivial_by_profile[0]);
+    run.cov("program_builds_with_differing_results", total_behaviour_failures);
     run.cov("distinct_result_strings", distinct_outcomes.len() as u64);
     run.cov("body_executions_macro_version", calls_macro);
     run.cov("body_executions_hand_version", calls_hand);
+    run.cov(
+        "early_returns_macro_version_per_process",
+        json!({"without_debug_assertions": early_by_profile[0], "with_debug_assertions": early_by_profile[1],
+               "note": "activations left through an explicit `return`; all shapes of a build run one after the other on the main thread of one process"}),
+    );
     run.cov("call_count_mismatches_in_trivially_observable_shapes", trivial_call_mismatch);
-    run.cov("shapes_run_by_capture_count_0_to_4", json!(per_ncaps.to_vec()));
+    run.cov("shape_builds_run_by_capture_count_0_to_4", json!(per_ncaps.to_vec()));
     run.cov("capture_patterns", patterns.len() as u64);
     run.cov("body_templates", json!(bodies.iter().map(|c| c.to_string()).collect::<Vec<_>>()));
     run.cov("body_templates_with_argument_counts", json!(plan.iter().map(|(b, a)| json!({"body": b.to_string(), "arguments": a})).collect::<Vec<_>>()));
     run.cov("shapes_with_recursive_call_nested_in_an_argument", nested_arg_shapes);
     run.cov("shapes_with_argument_mutating_a_mutable_capture", mutating_arg_shapes);
     run.cov("capture_pattern_x_call_syntax_with_both", covered.len() as u64);
+    run.cov("typed_argument_type_vectors", json!(typed_vectors.iter().collect::<Vec<_>>()));
+    run.cov("typed_(capture_pattern,argument_count,position,class)_cells_covered", typed_cells.len() as u64);
+    run.cov("typed_(capture_class,argument_count,class)_cells_covered_of_80", typed_capture_classes.len() as u64);
     run.cov("argument_tuples_per_arity_1_to_4", json!(grids[1..].iter().map(|g| g.len()).collect::<Vec<_>>()));
     run.cov("exhaustive", true);
     run.cov("crate_under_test", CRATE_PATH);
     run.cov(
         "rule",
-        "every shape = (capture sequence of length 0..=4 over {&,&mut}, 1..=4 arguments, return type i64/none, recursive calls plain/trailing comma, body template; the templates and the argument counts each is emitted with are listed in body_templates_with_argument_counts: A two calls ordered by a branch, B early returns, C calls in a loop / match arm and a nested call, D argument expressions with effects — a recursive call nested in an argument of a recursive call (as a sub-expression, or as a statement of a block argument when nothing is returned), block arguments that mutate every mutable capture before yielding their value, and an argument computed from a value popped off a mutable Vec capture; D occurs in both tiers for every capture pattern, both return forms and both call syntaxes) is emitted as a rec_lambda! invocation and as a hand-written recursive fn with the same body, compiled in one batch against the real macro and run on every argument tuple of a fixed grid (closure created once, called twice); an evaluation = one (shape, tuple) comparison of (r1, r2, every capture). A shape is non-trivial when the reference's results differ between at least two tuples of the grid (measured); shapes with neither return value nor mutable capture show only termination and are excluded",
+        "every shape = (capture sequence of length 0..=4 over {&,&mut}, 1..=4 arguments, return type i64/none, recursive calls plain/trailing comma, body template; the templates and the argument counts each is emitted with are listed in body_templates_with_argument_counts: A two calls ordered by a branch, B early returns, C calls in a loop / match arm and a nested call, D argument expressions with effects — a recursive call nested in an argument of a recursive call (as a sub-expression, or as a statement of a block argument when nothing is returned), block arguments that mutate every mutable capture before yielding their value, and an argument computed from a value popped off a mutable Vec capture; D occurs in both tiers for every capture pattern, both return forms and both call syntaxes; these have the argument types i64, i64, u32, bool) plus the typed-argument family T: for every capture pattern and argument count, type vectors over the classes I by-value i64, B bool, S shared slice &[i64], M &mut Vec<i64> passed as an ARGUMENT (re-borrowed in the recursive calls, implicitly and as &mut *a), O owned Vec<i64> / String (cloned for the first recursive call, moved into the last) such that every class occurs at every argument position (five rotation vectors; further vectors — all arguments of one class, one non-integer class among integers — all in thorough, one per cell in quick), body = early return when the first argument is exhausted, then two recursive calls; the T driver creates the closure once and calls it four times, MUTATING the data behind the arguments after call 1, passing short-lived temporaries in call 3 and dropping and recreating the data before call 4, exactly as it drives the hand-written fn. Every shape is emitted as a rec_lambda! invocation and as a hand-written recursive fn with the same body, compiled against the real macro (as several library crates linked into one program) twice — without and with debug assertions / overflow checks — and run on every argument tuple of a fixed grid; an evaluation = one (shape, build, tuple) comparison of (results of all calls, every capture, every &mut argument's data). A shape is non-trivial when the reference's results differ between at least two tuples of the grid (measured, counted once per shape); shapes with neither return value nor mutable capture nor &mut argument show only termination and are excluded",
     );
-    run.assume("a shape's compile verdict is the verdict of cargo/rustc of the installed tool chain on the generated program; the generated package is built with opt-level 0");
+    run.assume("a shape's compile verdict is the verdict of cargo/rustc of the installed tool chain on the generated program; the generated packages are built with opt-level 0, once with debug-assertions = false / overflow-checks = false and once with both true");
+    run.assume("all shapes of a build run one after the other on the main thread of ONE process, so state that a macro keeps per thread between invocations accumulates over the whole run (early_returns_macro_version_per_process says how many activations ended in an explicit `return`); a violation that only shows after such a history is replayed with its history");
 
     // non-vacuity
-    if compile_failures.is_empty() && behaviour_failures == 0 {
-        if nontrivial + trivial_by_rule != shapes.len() as u64 || nontrivial < 2 {
-            run.machinery_failure("non-trivial + trivially-observable shapes do not add up to the number of programs");
+    if !any_failure {
+        for pi in 0..2 {
+            if nontrivial_by_profile[pi] + trivial_by_profile[pi] != shapes.len() as u64 || nontrivial_by_profile[pi] < 2 {
+                run.machinery_failure("non-trivial + trivially-observable shapes do not add up to the number of programs");
+            }
         }
-        if calls_macro != calls_hand {
-            run.machinery_failure("all results agree but the two versions executed the body a different number of times");
+        if calls_macro != calls_hand || early_by_profile[0] + early_by_profile[1] != early_hand {
+            run.machinery_failure("all results agree but the two versions executed the body (or left it through `return`) a different number of times");
+        }
+        if early_by_profile.iter().any(|&e| e == 0) {
+            run.machinery_failure("no activation ever left a body through an explicit `return`");
         }
         if per_ncaps.iter().any(|&c| c == 0) || longest_log < 20 {
             run.machinery_failure("some capture count was never run, or no mutable log ever grew");
         }
+        if typed_run != (typed.len() * PROFILES.len()) as u64 || typed_capture_classes.len() != 80 {
+            run.machinery_failure("the typed-argument family was not run completely");
+        }
     }
 
-    // samples: three macro invocations written out, with one observed result each
-    let n = shapes.len();
+    // samples: macro invocations written out, with one observed result each (the last one has typed arguments)
     let picks = [
-        (args.seed as usize * 7 + n / 3 + 5) % n,
-        (args.seed as usize * 13 + (2 * n) / 3 + 2) % n,
-        (args.seed as usize * 29 + n - 3) % n,
+        (args.seed as usize * 7 + n_fixed / 3 + 5) % n_fixed,
+        (args.seed as usize * 13 + (2 * n_fixed) / 3 + 2) % n_fixed,
+        n_fixed + (args.seed as usize * 29 + typed.len() / 2 + 3) % typed.len(),
+        n_fixed + (args.seed as usize * 31 + typed.len() - 2) % typed.len(),
     ];
     for &i in &picks {
         let sh = &shapes[i].1;
         let grid = &grids[sh.nargs];
-        let obs = out.results.get(&i).map(|o| {
+        let obs = outs[0].run.results.get(&i).map(|o| {
             // a small tuple (first argument 2), so that the logs written out stay short
             let k = grid.iter().position(|t| t.0 == 2).unwrap_or(0);
-            json!({"arguments": gen::tuple_text(&grid[k], sh.nargs), "macro_version": o.mac[k], "hand_version": o.hand[k]})
+            json!({"driver_tuple": format!("{:?}", grid[k]), "macro_version": o.mac[k], "hand_version": o.hand[k]})
         });
+        let program = gen::program(&[(i, sh.clone())], thorough, true);
+        let driver = program.find("    pub fn run_macro").map(|a| &program[a..]).and_then(|t| t.find("\n    pub fn run_hand").map(|b| t[..b].to_string()));
         run.sample(json!({
             "shape": sh.descriptor(),
-            "invocation": format!("let mut lam = {};", gen::macro_invocation(sh, "")),
+            "driver_with_invocation": driver,
             "reference": gen::hand_fn(sh, "hand", ""),
-            "observed_(r1,r2,captures…)": obs,
+            "observed": obs,
         }));
     }
     run.finish(&confirm)
